@@ -213,7 +213,9 @@ def theorems_of(prop):
         m = re.match(r"\s*end\s+(\S+)", line)
         if m and ns and ns[-1] == m.group(1):
             ns.pop()
-        m = re.match(r"\s*(?:private\s+|protected\s+)?theorem\s+([^\s:({\[]+)", line)
+        if re.match(r"\s*private\s+theorem", line):
+            continue      # bridge lemmas: their axioms are those of the public theorems that use them
+        m = re.match(r"\s*(?:protected\s+)?theorem\s+([^\s:({\[]+)", line)
         if m:
             names.append(".".join(ns + [m.group(1)]))
     return names
